@@ -277,8 +277,11 @@ def lp_to_json(lp):
 def lp_from_json(d):
     def b(x):
         return x if x in (INF, NINF) else F(x)
-    return dict(name=d["name"], max=d["max"], cols=[(n, F(o), b(l), b(u)) for n, o, l, u in d["cols"]],
-                rows=[(n, s, F(r), F(g), [(j, F(v)) for j, v in ent]) for n, s, r, g, ent in d["rows"]])
+    lp = dict(name=d["name"], max=d["max"], cols=[(n, F(o), b(l), b(u)) for n, o, l, u in d["cols"]],
+              rows=[(n, s, F(r), F(g), [(j, F(v)) for j, v in ent]) for n, s, r, g, ent in d["rows"]])
+    if "numbers" in d:
+        lp["numbers"] = d["numbers"]          # generator family of the numbers (kept with corpus entries)
+    return lp
 
 
 def load_corpus(pid):
